@@ -35,7 +35,7 @@ type Prog struct {
 	SSA     *ssa.Program
 	All     map[*ssa.Function]bool
 	CG      *callgraph.Graph
-	Graph   string // "vta" or "cha"
+	Graph   string          // "vta" or "cha"
 	Fns     []*ssa.Function // repo functions with bodies (including closures), sorted by name
 	byName  map[string]*ssa.Function
 	Config  string // GOOS/GOARCH
